@@ -51,7 +51,6 @@ func (ra *ResponseAdaptor) decompress(resp *httpprot.Response) (res string)
 
 func (ra *ResponseAdaptor) Handle(ctx *context.Context) (result string)
   flag allocates
-  flag frame=unchecked
   requires ra != nil && ra.spec != nil && ctx != nil
   modifies gResp
   ensures replaced-body-is-well-framed: result == "" && gResp != 0 && len(ra.spec.Body) != 0 ==> wellFramed(ptr(gResp, "*httpprot.Response"))
